@@ -43,13 +43,20 @@ RRec(p) == RecM([Name |-> Leaf(p \o ".Name"),
                 [Hello |-> Leaf(p \o ".Hello()"), Shout |-> Leaf(p \o ".Shout()"),
                  Child |-> KRec(p \o ".Child()"), ChildPtr |-> KRec(p \o ".ChildPtr()"), NilChild |-> Nil])
 
+\* two DIFFERENT Go struct types that print the same type name, with the same field names in another order
+T2(p) == Rec([Title |-> Leaf(p \o ".Title"), Owner |-> Leaf(p \o ".Owner")])
+\* a pointer to a map: Go itself does not index through it; whether plush does is not specified (it must not crash)
+PMap(m) == [t |-> "pmap", m |-> m]
 \* context data: a struct, a pointer to one (transparent), a slice of structs, a map of structs, index variables
 Data == [r |-> RRec("r"), rp |-> RRec("rp"),
          rs |-> A(<<RRec("rs[0]"), RRec("rs[1]")>>),
          rm |-> M([a |-> RRec("rm[a]")]),
          k |-> KRec("k"), ks |-> A(<<KRec("ks[0]"), KRec("ks[1]")>>),
+         ta |-> A(<<T2("ta[0]"), T2("ta[1]")>>), tb |-> A(<<T2("tb[0]"), T2("tb[1]")>>),
+         pks |-> [t |-> "pslice", xs |-> <<KRec("pks[0]"), KRec("pks[1]")>>],    \* a pointer to a slice: like a pointer to a map
+         pm |-> PMap([a |-> KRec("pm[a]")]), pms |-> A(<<PMap([a |-> KRec("pms[0][a]")])>>),
          i0 |-> I(0), i1 |-> I(1), i9 |-> I(9), ka |-> S(<<"a">>), kz |-> S(<<"z", "z">>)]
-Roots == {"r", "rp", "rs", "rm", "k", "ks"}
+Roots == {"r", "rp", "rs", "rm", "k", "ks", "ta", "tb", "pks", "pm", "pms"}
 
 Unexported == "secret"
 VARIABLES e, v, n,     \* path expression, value reached ([t |-> "fail"] once navigation cannot be completed), steps
@@ -76,21 +83,25 @@ Init == \/ \E x \in Roots : e = Id(x) /\ v = Data[x] /\ n = 0 /\ fam = "walk"
 FieldStep(f) == /\ e' = Dot(e, f)
                 /\ v' = IF v.t = "rec" /\ f \in DOMAIN v.f THEN v.f[f] ELSE IF v.t = "nil" THEN Nil ELSE Failed
 IndexStep(ix, k) == /\ e' = Idx(e, ix)
-                    /\ v' = IF v.t = "arr" /\ k >= 0 /\ k < Len(v.xs) THEN v.xs[k + 1] ELSE Failed
+                    /\ v' = IF v.t = "arr" /\ k >= 0 /\ k < Len(v.xs) THEN v.xs[k + 1]
+                            ELSE IF v.t = "pslice" THEN [t |-> "unspecv"] ELSE Failed
 KeyStep(kx, key) == /\ e' = Idx(e, kx)
-                    /\ v' = IF v.t = "map" THEN (IF key \in DOMAIN v.m THEN v.m[key] ELSE Nil) ELSE Failed
+                    /\ v' = IF v.t = "map" THEN (IF key \in DOMAIN v.m THEN v.m[key] ELSE Nil)
+                            ELSE IF v.t = "pmap" THEN [t |-> "unspecv"] ELSE Failed
 CallStep(m) == /\ e' = MCall(e, m)
                /\ v' = IF v.t = "rec" /\ m \in DOMAIN v.m THEN v.m[m] ELSE Failed
 
 Extend ==
   /\ fam = "walk" /\ UNCHANGED fam
-  /\ n < MaxSteps /\ v # Failed /\ v.t \in {"rec", "arr", "map", "nil"}
+  /\ n < MaxSteps /\ v # Failed /\ v.t \in {"rec", "arr", "map", "nil", "pmap", "pslice"}
   /\ n' = n + 1
   /\ \/ v.t = "rec" /\ \E f \in DOMAIN v.f \cup {"Nope", Unexported} : FieldStep(f)
      \/ v.t = "rec" /\ \E m \in DOMAIN v.m \cup {"Nope"} : CallStep(m)
      \/ v.t = "nil" /\ FieldStep("Name")
      \/ v.t = "arr" /\ \/ \E k \in 0..2 : IndexStep(IntL(k), k)
                        \/ IndexStep(Id("i0"), 0) \/ IndexStep(Id("i1"), 1) \/ IndexStep(Id("i9"), 9)
+     \/ v.t = "pslice" /\ (IndexStep(IntL(0), 0) \/ IndexStep(Id("i1"), 1) \/ IndexStep(Id("i9"), 9))
+     \/ v.t = "pmap" /\ (KeyStep(Str(<<"a">>), "a") \/ KeyStep(Id("ka"), "a") \/ FieldStep("Name"))
      \/ v.t = "map" /\ \/ KeyStep(Str(<<"a">>), "a") \/ KeyStep(Str(<<"z", "z">>), "zz")
                        \/ KeyStep(Id("ka"), "a") \/ KeyStep(Id("kz"), "zz")
 Spec == Init /\ [][Extend]_vars
@@ -105,7 +116,8 @@ Res(u) == Run(Prog(u), WithHelpers(Data), EmptyScope, "")
 \* what C11 states: the value Go navigation yields, or an error / empty output when it cannot be completed
 Expect(u) ==
   LET r == Res(u) IN
-  IF v = Failed \/ v.t = "nil" THEN [k |-> "errorempty", base |-> <<"[", "]">>]
+  IF v # Failed /\ v.t \in {"unspecv", "pmap", "pslice"} THEN [k |-> "unspec"]
+  ELSE IF v = Failed \/ v.t = "nil" THEN [k |-> "errorempty", base |-> <<"[", "]">>]
   ELSE IF u = "iter" /\ v.t \notin {"arr", "map"} THEN [k |-> "errorempty", base |-> <<"[", "]">>]
   ELSE IF u = "iter" /\ (v.t = "map" \/ \E i \in 1..Len(v.xs) : v.xs[i].t # "str") THEN [k |-> "unspec"]
   ELSE IF u # "iter" /\ v.t # "str" THEN [k |-> "unspec"]                  \* not a leaf: printed form unspecified
